@@ -17,17 +17,23 @@ CHECKS = {
   text="Coq theorems, Closed under the global context, for every state whose id allocator satisfies the representation invariant that C20 "
        "proves is maintained: acquire returns the LEAST free id (not in use before, in use after, nothing else touched, no event) and reports "
        "exhaustion only when no id in 1..max is free; register succeeds exactly for a free in-range id; release is total for every id value "
-       "(0, out of range, free, in use) and announces the release exactly when it turns an in-use id free. OVER HISTORIES "
-       "(C08_WFpid_invariant, by a walk through every function of the model): every call keeps that representation invariant — every release "
-       "the library performs is guarded by 'is in use' — except the unguarded release of stored packets dropped as oversize on resume, which "
-       "the hypothesis excludes; so the per-call theorems apply in every state of such a history of a fresh object. PARTIAL (C08_partial): the "
+       "(0, out of range, free, in use) and announces the release exactly when it turns an in-use id free. OVER HISTORIES: "
+       "C08_WFpid_invariant (every call keeps the allocator's representation invariant: every release the library performs is guarded by "
+       "'is in use', except the release of stored packets dropped as oversize on resume, which that theorem's hypothesis excludes) and THE "
+       "OWNERSHIP INVARIANT (C08_step_keeps_ownership, C08_ownership_invariant, by a walk through every function of the model): allocator "
+       "well formed, identifiers of stored packets in use and pairwise distinct, every stored packet awaited in exactly the set of its kind, "
+       "every identifier awaited in at most one of the five sets — kept by EVERY call of a connection with a determined version, whatever "
+       "the peer sends, under the application's side of the contract (identifiers handed to send() are held by the application; "
+       "release_packet_id is not called for a stored packet's identifier; restore_packets is given packets of this version with identifiers "
+       "awaited nowhere); it yields the representation invariant ALSO across the oversize drop on resume. PARTIAL (C08_partial): the "
        "per-call accounting 'announced releases = ids that turn free' for every other call (sends, acks, refusals, close, resume) and the "
        "no-leak-on-close clause are decided by the monitor (in-use set from the hook, ghost of application-held ids) on the "
-       "implementation's traces and by the projection correspondence, not yet by theorems.",
+       "implementation's traces, by the store stage (mon_c06: an accepted PUBLISH/PUBREL is sent or stored, so its identifier cannot leak) "
+       "and by the allocator stage (C20's allocator correspondence and set-specification monitor on ValueAllocator traces whose range "
+       "ends at the integer type's maximum: every id up to the maximum usable at once, exhaustion an error).",
   ref="DESIGN.md §3 C08",
   note=CONN_NOTE + " Ownership ghost: a success PUBREC that the library does not answer with PUBREL itself makes the application responsible for the id.",
-  technique="Coq proofs of the id API on top of the C20 allocator refinement + ownership-ghost monitor + differential correspondence"),
- "C05": dict(
+  technique="Coq proofs of the id API on top of the C20 allocator refinement + ownership invariant over all histories (walker proof) + ownership-ghost monitor, store stage, allocator stage + differential correspondence"), "C05": dict(
   text="Coq theorems, Closed under the global context, for every state: after notify_closed the connection is Disconnected with an empty frame "
        "builder and a client's CONNECT is then accepted; every refused frame is reported by an error event, delivers nothing and keeps the "
        "session state. PARTIAL (C05_partial): 'no call panics / no wrap / finite events' over all histories is decided by running every "
@@ -44,9 +50,12 @@ CHECKS = {
        "function of the model): an identifier's store entry survives every call that is not a release point (matching acknowledgement, "
        "erase, oversize drop on resume, end of session, reuse of the id by a new PUBLISH), across persistent closes and resumes; on resume the "
        "call that processes/sends the CONNACK requests exactly the stored packets that fit, in store order, and nothing else; without Session "
-       "Present the store is emptied. PARTIAL (C06_partial): that the identifier stays HELD over histories and the v5.0 accepted-implies-"
-       "sent-or-stored clause are decided by the monitor mon_c06 (ghost store from operations/events vs exported store and in-flight sets) "
-       "and the correspondence.",
+       "Present the store is emptied. THE IDENTIFIER STAYS HELD (C06_history_keeps_ownership, C06_stored_identifier_held): the ownership "
+       "invariant OWN (allocator well formed; stored identifiers in use and distinct; each stored packet awaited in the set of its kind; "
+       "awaited sets disjoint) is kept by every call and history, whatever the peer sends, under the application's side of the contract, "
+       "and the matching PUBACK/PUBREC/PUBCOMP erases exactly that packet. PARTIAL (C06_partial): the v5.0 accepted-implies-sent-or-stored "
+       "clause is decided by the monitor mon_c06 (ghost store from operations/events vs exported store and in-flight sets; clause 1 covers "
+       "PUBLISH and PUBREL) and the correspondence; the ownership theorems assume a determined protocol version.",
   ref="DESIGN.md §3 C06",
   note=CONN_NOTE,
   technique="Coq per-step and history-invariant proofs + ghost-store monitor + differential correspondence"),
@@ -58,7 +67,9 @@ CHECKS = {
        "(PUBREL for it, error PUBREC sent for it, clean-start CONNECT, CONNACK without session, non-persistent close, restore), so a v3.1.1 "
        "retransmission after any such history is not notified (C07_handled_until_released, by a walker over every function of the model). "
        "PARTIAL (C07_partial): 'a first PUBLISH is notified' over histories and the v5.0 duplicate path are decided by the monitor mon_c07 "
-       "(ghost set of notified-and-unreleased ids from the events) and the correspondence.",
+       "(ghost set of notified-and-unreleased ids from the events; a retransmission on an established connection must be answered with "
+       "PUBREC whether or not automatic responses are on; restore_qos2_publish_handled REPLACES the set, at any point of a history) and the "
+       "correspondence.",
   ref="DESIGN.md §3 C07",
   note=CONN_NOTE,
   technique="Coq per-step and history-invariant proofs + exactly-once ghost monitor + differential correspondence"),
@@ -109,8 +120,10 @@ CHECKS = {
        "acknowledgement; a fresh object given the export of a session satisfying the store invariant has a session state EQUAL to the "
        "original's (store, three in-flight sets, interval list of identifiers in use, handled ids), so the reconnect (CONNECT sent/received) "
        "has equal state and events on original-after-close and restored, and so has every continuation; restore is total, QoS0 and "
-       "already-used identifiers are skipped. PARTIAL: that reachable persistent-session states satisfy the store invariant is decided by "
-       "the monitors and the paired-run monitor (original vs restored implementation object, events + full digest), not yet a theorem.",
+       "already-used identifiers are skipped; restore_packets keeps the ownership invariant OWN (see C08) on any object that has it "
+       "(C16_restore_keeps_ownership) and every later call keeps it, so restored identifiers stay in use until their exchange completes. "
+       "PARTIAL: that the restored object's later behaviour EQUALS the original's is decided by the paired-run monitor (original vs "
+       "restored implementation object, events + full digest) and the store-order stage, not a single theorem.",
   ref="DESIGN.md §3 C16",
   note=CONN_NOTE + " Paired cases use determinate versions (an export cannot be restored into an object of undetermined version).",
   technique="Coq proofs of restore (refinement to the set spec via C20) + state-equality/determinism + paired-run differential monitor on two implementation objects"),
